@@ -5,13 +5,14 @@ import random
 
 import common as C
 
-COQ_FILES = ("Base/Bytes.v", "L4_Eval/Store.v", "L5_Stores/Lru.v", "L5_Stores/RunStore.v", "L5_Stores/LruProofs.v",
-             "Extracted/ConstLru.v", "Properties/C12.v")
+COQ_FILES = ("Base/Bytes.v", "L4_Eval/Store.v", "L5_Stores/Lru.v", "L5_Stores/RunStore.v", "L5_Stores/LruProofs.v", "L5_Stores/LruMulti.v",
+             "Extracted/ConstLru.v", "Properties/C12.v", "Properties/C12b.v")
+PROPERTY_FILES = ("C12", "C12b")
 EXTRACTED = ("ConstLru",)
 ALLOWED_AXIOMS = ()
 
 PRELUDE = """From Coq Require Import List String ZArith NArith.
-From DDS Require Import Base.Bytes L4_Eval.Store L5_Stores.Lru L5_Stores.RunStore Extracted.ConstLru.
+From DDS Require Import Base.Bytes L4_Eval.Store L5_Stores.Lru L5_Stores.RunStore L5_Stores.LruMulti Extracted.ConstLru.
 Import ListNotations.
 """
 
@@ -111,7 +112,7 @@ def run(rep, tier, seed, proof_ok):
     rep.rule = ("operation sequences (has/fetch/store blob, sync/fetch paths) over keys {absent, present, stored-later, None-valued}: "
                 "exhaustive up to length 4 (quick, sampled 500) / 5 (thorough) over 2 keys + random length 5..40 over 4 keys; capacities "
                 "{1,2,3,10,unbounded}; real LRUCacheStore over real MemoryStore and LocalFileStore in lock-step with the bare store and "
-                "with the Coq model (memory); distinct = distinct (store, capacity, sequence); non-trivial = contains a fetch or has "
+                "with the Coq model (memory); plus 2-3 cache wrappers sharing one inner store with interleaved operations (multi-client model); distinct = distinct (store, capacity, sequence); non-trivial = contains a fetch or has "
                 "after another operation on the same key")
     seqs = gen_sequences(rng, tier if proof_ok else "thorough")
     caps = [1, 2, 3, 10, "unbounded"]
@@ -172,6 +173,41 @@ def run(rep, tier, seed, proof_ok):
                 rep.violation("model-mismatch:memory", "MemoryStore and store specification disagree",
                               {"ops": ops, "impl": ";".join(rb["outs"]), "model": mb})
         j += 2
+    # several cache wrappers (processes) sharing one inner store, operations interleaved
+    mjobs = []
+    for i in range(60 if tier == "quick" else 600):
+        n = rng.randint(8, 30)
+        nc = rng.choice([2, 2, 3])
+        ops = []
+        for _ in range(n):
+            r = rng.random()
+            k = rng.choice(KEYS)
+            ci = rng.randrange(nc)
+            if r < 0.3:
+                ops.append([ci, ["has", k]])
+            elif r < 0.7:
+                ops.append([ci, ["fetch", k]])
+            else:
+                ops.append([ci, ["put", k, VALUE[k]]])
+        cap = caps[i % len(caps)]
+        mjobs.append({"store": "memory" if i % 3 else "local", "cap": cap, "clients": nc, "ops": ops})
+        mjobs.append({"store": "memory" if i % 3 else "local", "cap": "bare", "ops": [o for _, o in ops]})
+    mres = C.run_driver("drive_store.py", {"seqs": mjobs})["seqs"]
+    mexprs = [f"render_outs (multi_run {cap_coq(j['cap'])} (minit {j['clients']}) [" + "; ".join(f"({ci}%nat, {op_coq(o)})" for ci, o in j["ops"]) + "])"
+              for j in mjobs[::2]]
+    mmodel = C.coq_eval_strings(PRELUDE, mexprs, label="c12m")
+    for k2 in range(0, len(mjobs), 2):
+        w, rw, rb = mjobs[k2], mres[k2], mres[k2 + 1]
+        rep.case(json.dumps(["multi", w["store"], w["cap"], w["clients"], w["ops"]]))
+        if rw["outs"] != rb["outs"]:
+            rep.violation("opaque:multi-client", f"{w['clients']} cache-wrapped clients over one {w['store']} store (capacity {w['cap']}) get answers that differ "
+                          "from the bare store's", {"multi": True, "store": w["store"], "cap": w["cap"], "clients": w["clients"], "ops": w["ops"],
+                                                    "wrapped": rw["outs"], "bare": rb["outs"]})
+        if w["cap"] != "unbounded" and any(x > w["cap"] for x in rw["lens"]):
+            rep.violation("unbounded-cache", f"a cache holds more than {w['cap']} objects", {"multi": True, "cap": w["cap"], "ops": w["ops"], "lens": rw["lens"]})
+        if w["store"] == "memory" and mmodel[k2 // 2] != ";".join(rw["outs"]):
+            rep.violation("model-mismatch:lru-multi", "multi-client LRU model and implementation disagree",
+                          {"multi": True, "cap": w["cap"], "ops": w["ops"], "impl": ";".join(rw["outs"]), "model": mmodel[k2 // 2]})
     # option decoding
     dexprs = []
     for a in decode_args:
@@ -190,6 +226,12 @@ def run(rep, tier, seed, proof_ok):
 
 def replay(path):
     r = json.load(open(path))["replay"]
+    if r.get("multi"):
+        o = C.run_driver("drive_store.py", {"seqs": [{"store": r.get("store", "memory"), "cap": r["cap"], "clients": r.get("clients", 2), "ops": r["ops"]},
+                                                     {"store": r.get("store", "memory"), "cap": "bare", "ops": [x for _, x in r["ops"]]}]})["seqs"]
+        print(json.dumps({"wrapped": o[0]["outs"], "bare": o[1]["outs"]}))
+        print("REPRODUCED" if o[0]["outs"] != o[1]["outs"] else "not reproduced")
+        return 1 if o[0]["outs"] != o[1]["outs"] else 0
     o = C.run_driver("drive_store.py", {"seqs": [{"store": r.get("store", "memory"), "cap": r["cap"], "ops": r["ops"]},
                                                  {"store": r.get("store", "memory"), "cap": "bare", "ops": r["ops"]}]})["seqs"]
     print(json.dumps({"ops": r["ops"], "wrapped": o[0]["outs"], "bare": o[1]["outs"]}, indent=1))
